@@ -74,10 +74,18 @@ Proof.
   destruct (o_kind o); cbn; auto; destruct (e_reof o); cbn; auto.
 Qed.
 
-Lemma sys_write_bits o want : fst (sys_write o want) = o.
+Lemma sys_write_fields o want :
+  let o1 := fst (sys_write o want) in
+  o_kind o1 = o_kind o /\ o_closed o1 = o_closed o /\ o_evR o1 = o_evR o /\ o_evW o1 = o_evW o /\
+  o_rd o1 = o_rd o /\ o_wr o1 = o_wr o /\ o_reg o1 = o_reg o.
 Proof.
-  unfold sys_write. destruct (o_closed o || _); [reflexivity|]. destruct (e_rst o); [reflexivity|].
-  destruct (e_wdead o); reflexivity.
+  unfold sys_write. destruct (o_closed o || _); [cbn; auto 10|]. destruct (e_rst o); [cbn; auto 10|].
+  destruct (e_wdead o); [cbn; auto 10|]. destruct (e_wroom o <? 0); [cbn; auto 10|]. destruct (e_wroom o =? 0); cbn; auto 10.
+Qed.
+
+Lemma sys_write_bits o want : wobj (fst (sys_write o want)) = wobj o /\ o_evR (fst (sys_write o want)) = o_evR o /\ o_evW (fst (sys_write o want)) = o_evW o.
+Proof.
+  destruct (sys_write_fields o want) as (_ & _ & A & B & _). unfold wobj. rewrite A, B. auto.
 Qed.
 
 (* schedule: sets one interest bit and increments pending, or changes nothing *)
@@ -110,13 +118,13 @@ Proof.
   destruct (lookup i (l_objs s)) as [o|] eqn:Hl; [|reflexivity].
   assert (Hb : forall o1, wobj o1 = wobj o -> gap (set_obj s i o1) = gap s) by (intros; eapply gap_same_bits; eauto).
   destruct w.
-  - pose proof (sys_write_bits o (op_len p - op_sofar p)) as Hw.
-    destruct (sys_write o (op_len p - op_sofar p)) as [o1 r]. cbn in Hw. subst o1.
+  - pose proof (sys_write_bits o (op_len p - op_sofar p)) as (Hw & HR & HW).
+    destruct (sys_write o (op_len p - op_sofar p)) as [o1 r]. cbn in Hw, HR, HW.
     destruct r.
-    + destruct (op_all p && negb (op_sofar p + n =? op_len p) && negb (is_pkt o)); [rewrite IH; apply Hb; reflexivity|cbn; apply Hb; reflexivity].
-    + cbn; apply Hb; reflexivity.
+    + destruct (op_all p && negb (op_sofar p + n =? op_len p) && negb (is_pkt o)); [rewrite IH; apply Hb; exact Hw|cbn; apply Hb; exact Hw].
+    + cbn; apply Hb; exact Hw.
     + eapply schedule_gap; eauto.
-    + cbn; apply Hb; reflexivity.
+    + cbn; apply Hb; exact Hw.
   - pose proof (sys_read_bits o (op_len p - op_sofar p)) as (Hw & HR & HW).
     destruct (sys_read o (op_len p - op_sofar p)) as [o1 r]. cbn in Hw, HR, HW.
     destruct r.
@@ -310,7 +318,7 @@ Proof.
   - rewrite gap_set_disp. exact H1.
   - change (l_objs s1) with (l_objs s). destruct (lookup i (l_objs s)) as [ob|] eqn:Hl; [|exact H1].
     rewrite gap_set_obj. change (l_objs s1) with (l_objs s). rewrite Hl.
-    destruct p; [| destruct (o_kind ob) | | |]; unfold wobj; cbn; lia.
+    destruct p; [| destruct (o_kind ob) | | | |]; unfold wobj; cbn; lia.
   - reflexivity.
   - rewrite exec_gap. exact H1.
   - rewrite exec_gap. exact H1.
